@@ -1502,6 +1502,8 @@ def into_iter(vm, v, by_ref=False):
 
 def iter_next(vm, it):
     """-> (item or None, new iterator)"""
+    if isinstance(it, Adt) and it.ty in ('Range', 'RangeInclusive'):
+        it = into_iter(vm, it)       # a range used as an iterator directly (`(0..n).map(..)`)
     if isinstance(it, Adt):
         # an iterator type of the crate (e.g. TrackDistanceOkIterator): run its own Iterator::next
         c = vm.prog.impl_methods.get((it.ty, 'Iterator', 'next'))
@@ -2243,6 +2245,15 @@ def _condvar_wait_while(vm, cal, args):
             if s is not None:
                 s.on_block(vm, as_ref(guard).cell)
     raise Panic("deadlock: Condvar::wait_while condition still holds when no other thread can run")
+
+
+# std::thread::spawn: the thread body is recorded, not run; the spec's scheduler decides when it runs (vm.notes['threads'])
+@reg((None, None, 'spawn'))
+def _thread_spawn(vm, cal, args):
+    if 'threads' not in vm.notes:
+        raise Unmodelled("thread::spawn without a thread scheduler in the query")
+    vm.notes['threads'].append(args[0])
+    return Opaque('JoinHandle', vm.fresh_tag('thread'))
 
 
 @reg(('JoinHandle', None, 'join'))
